@@ -346,6 +346,8 @@ impl ErrorCounter {
         // `fetch_add`, because we don't want to wrap on overflow. Instead, we
         // need to ensure that saturating addition is performed.
         loop {
+            #[cfg(tokio_rs_tracing_verif)]
+            tracing_subscriber::__verif::point("appender:incr_saturating:cas");
             let val = curr.saturating_add(1);
             match self
                 .0
